@@ -20,3 +20,7 @@
 (0 (1000 5 0) ((9 1 10 20) (7 (1)) (6) (1 1 5) (14 1) (7 (1)) (6) (1 1 12)))
 ; the owner stops while handling the completing record
 (0 (1000 5 0) ((9 1 10 12) (7 (1)) (6) (1 1 3) (14 1) (7 (1)) (6) (1 1 3)))
+; F11: straggler on the broadcast grid, then a refresh caused by another partition: 13..19 lost
+(0 (1000 5 0) ((9 1 10 30) (7 (1 2)) (6) (1 1 3) (15 1 6) (9 2 0 5) (6) (1 1 15)))
+; F11: straggler beyond to closes the request: 13..20 lost
+(0 (1000 5 0) ((9 1 10 20) (7 (1)) (6) (1 1 3) (15 1 7) (1 1 12)))
